@@ -69,9 +69,8 @@ const (
 func (m *Model) PutVerdict(b Blk) putVerdict {
 	long := len(b.Cid.Bytes()) > m.Cfg.EffMaxIdxCid()
 	if IsIdentity(b.Cid) && !m.Cfg.StoreID {
-		if long {
-			return putSkipOrRej
-		}
+		// IdStore rule: putting an identity block is a successful no-op, whatever its
+		// length - it is never stored, so the index CID size limit does not concern it.
 		return putSkip
 	}
 	if long {
